@@ -32,33 +32,26 @@ From Coq Require Import List Bool Arith Lia.
 Import ListNotations.
 
 (** * Data *)
-(* t_types: the enum types (pointer ids of the *schema.EnumType objects) of the table's columns *)
-Record table := mkT { t_name : nat; t_id : nat; t_types : list nat }.
+Record table := mkT { t_name : nat; t_id : nat }.
 Record fkey := mkFK { f_sym : nat; f_tab : table; f_ref : table }.
 
 Inductive tchange :=
 | AddFK (f : fkey)
 | DropFK (f : fkey)
 | ModifyFK (from to : fkey)
-| Other (k : nat)             (* AddColumn / DropColumn of a plain column, ... *)
-| ColType (kind e : nat).     (* a column of enum type e: kind 0 AddColumn, 1 ModifyColumn (to e), else DropColumn *)
+| Other (k : nat).            (* AddColumn / DropColumn of a plain column, ... *)
 
 Inductive change :=
 | AddTable (t : table) (fks : list fkey)      (* fks = T.ForeignKeys *)
 | DropTable (t : table) (fks : list fkey)
-| ModifyTable (t : table) (cs : list tchange)
-| AddObject (o : nat)                          (* schema.AddObject{O: *schema.EnumType}, o = pointer id *)
-| DropObject (o : nat).
+| ModifyTable (t : table) (cs : list tchange).
 
 Definition ptr_eqb (a b : table) : bool := t_id a =? t_id b.
 Definition same_table (a b : table) : bool := t_name a =? t_name b.
 
 (* plan.go: table *)
-Definition no_table : table := mkT 0 0 [].
 Definition table_of (c : change) : table :=
-  match c with AddTable t _ => t | DropTable t _ => t | ModifyTable t _ => t | _ => no_table end.
-Definition is_obj (c : change) : bool :=
-  match c with AddObject _ => true | DropObject _ => true | _ => false end.
+  match c with AddTable t _ => t | DropTable t _ => t | ModifyTable t _ => t end.
 
 Definition mem (x : nat) (l : list nat) : bool := existsb (Nat.eqb x) l.
 
@@ -101,10 +94,7 @@ Definition dep_change (changes : list change) (d : deps_t) (c : change) : deps_t
                             | ModifyFK _ to => dep_addfk t to d
                             | DropFK f => dep_dropfk changes f d
                             | Other _ => d
-                            | ColType _ _ => d
                             end) cs d
-  | AddObject _ => d
-  | DropObject _ => d
   end.
 
 Definition dependencies (changes : list change) : deps_t :=
@@ -184,7 +174,6 @@ Definition det_planned (c : change) : list change :=
   | ModifyTable t cs =>
       let rest := filter (fun c => negb (is_addfk c)) cs in
       match rest with [] => [] | _ => [ModifyTable t rest] end
-  | c => [c]                                   (* default: planned = append(planned, change) *)
   end.
 
 Definition det_deferred (c : change) : list change :=
@@ -198,7 +187,6 @@ Definition det_deferred (c : change) : list change :=
   | ModifyTable t cs =>
       let fks := filter is_addfk cs in
       match fks with [] => [] | _ => [ModifyTable t fks] end
-  | _ => []
   end.
 
 Definition detachReferences (changes : list change) : list change :=
@@ -215,9 +203,7 @@ Fixpoint insert_by (key : change -> nat) (c : change) (l : list change) : list c
 Definition sort_by (key : change -> nat) (l : list change) : list change :=
   fold_left (fun acc c => insert_by key c acc) l [].
 
-(* table(change) is "" for an object change and sorted[""] reads 0 *)
-Definition sort_key (sorted : list nat) (c : change) : nat :=
-  if is_obj c then 0 else sorted_idx sorted (t_name (table_of c)).
+Definition sort_key (sorted : list nat) (c : change) : nat := sorted_idx sorted (t_name (table_of c)).
 
 Inductive dcres := DCOut | DCOk (planned : list change).
 
@@ -232,18 +218,15 @@ Definition DetachCycles (changes : list change) : dcres :=
 Definition refTo (fks : list fkey) (t : table) : bool :=
   existsb (fun f => same_table (f_ref f) t) fks.
 
-Definition col_of (kinds : nat -> bool) (o : nat) (cs : list tchange) : bool :=
-  existsb (fun c => match c with ColType k e => kinds k && (e =? o) | _ => false end) cs.
-
 Definition dependsOn (c1 c2 : change) : bool :=
   match c1, c2 with
   | AddTable t1 _, DropTable t2 _ => same_table t1 t2                 (* table recreation *)
   | AddTable t1 f1, AddTable t2 _ => refTo f1 t2
   | AddTable t1 f1, ModifyTable t2 _ => negb (same_table t1 t2) && refTo f1 t2
-  | AddTable t1 _, AddObject o => mem o (t_types t1)                 (* a column of the new table has that type *)
   | DropTable t1 _, DropTable t2 f2 => refTo f2 t1
   | DropTable t1 _, ModifyTable t2 cs =>
       existsb (fun c => match c with DropFK f => same_table (f_ref f) t1 | _ => false end) cs
+  | DropTable _ _, AddTable _ _ => false
   | ModifyTable t1 cs, AddTable t2 _ =>
       same_table t1 t2
       || existsb (fun c => match c with
@@ -251,15 +234,12 @@ Definition dependsOn (c1 c2 : change) : bool :=
                             | ModifyFK _ to => same_table (f_ref to) t2    (* fix C04-modfk-detached *)
                             | _ => false
                             end) cs
-  | ModifyTable _ cs, AddObject o => col_of (fun k => k <? 2) o cs   (* AddColumn / ModifyColumn of that type *)
-  | DropObject o, DropTable t2 _ => mem o (t_types t2)               (* the dropped table still uses the type *)
-  | DropObject o, ModifyTable _ cs => col_of (fun k => 2 <=? k) o cs (* DropColumn of that type *)
-  | _, _ => false
+  | ModifyTable _ _, ModifyTable _ _ => false
+  | ModifyTable _ _, DropTable _ _ => false
   end.
 
 (** * SortChanges (plan.go) *)
-Definition is_drop (c : change) : bool :=
-  match c with DropTable _ _ => true | DropObject _ => true | _ => false end.
+Definition is_drop (c : change) : bool := match c with DropTable _ _ => true | _ => false end.
 
 (* changes = append(other, append(views, drop...)...) *)
 Definition partition_changes (cs : list change) : list change :=
@@ -371,8 +351,6 @@ Definition pg_sources (c : change) : list change :=
 
 (** * The reference catalogue (the specification side) *)
 Record cat := mkCat { c_tabs : list nat; c_fks : list (nat * nat * nat) }.  (* (child, symbol, parent) *)
-(* enum types are not part of the reference catalogue (property C04 speaks of tables and foreign keys):
-   object changes and ColType changes replay as no-ops *)
 
 Definition fk_key_neqb (child sym : nat) (e : nat * nat * nat) : bool :=
   negb ((fst (fst e) =? child) && (snd (fst e) =? sym)).
@@ -398,7 +376,6 @@ Definition replay_tc (t : nat) (c : cat) (tc : tchange) : option cat :=
            else None
       else None
   | Other _ => Some c
-  | ColType _ _ => Some c
   end.
 
 Fixpoint replay_tcs (t : nat) (c : cat) (tcs : list tchange) : option cat :=
@@ -423,8 +400,6 @@ Definition replay1 (c : cat) (ch : change) : option cat :=
            else Some (mkCat (remove_nat n (c_tabs c)) (filter (fun e => negb (fst (fst e) =? n)) (c_fks c)))
   | ModifyTable t tcs =>
       if mem (t_name t) (c_tabs c) then replay_tcs (t_name t) c tcs else None
-  | AddObject _ => Some c
-  | DropObject _ => Some c
   end.
 
 Fixpoint replay (l : list change) (c : cat) : option cat :=
